@@ -268,7 +268,7 @@ func (a *attempt) syncer(stop chan struct{}, wg *sync.WaitGroup) {
 				}
 				raw := vchain.EncodeBlock(b)
 				dst := nd
-				a.net.send(best, j, "syncblock", "", -1, func() { dst.onBlockRaw(raw) })
+				a.net.sendH(best, j, "syncblock", "", -1, h, func() { dst.onBlockRaw(raw) })
 			}
 		}
 	}
@@ -352,7 +352,7 @@ func (a *attempt) steadyFeeder(stop chan struct{}) {
 		a.txLeft--
 		tx := a.newTransfer(r, maxU32(a.cl.heights())+30+uint32(r.Intn(40)))
 		subset := a.allNodes()
-		if r.Intn(3) == 0 {
+		if a.sc.Scen == "rec" && r.Intn(3) == 0 {
 			subset = nil
 			for i := 0; i < n; i++ {
 				if r.Bool() {
